@@ -29,7 +29,7 @@ func main() { vlib.Run("C38", run) }
 var base string // per-process scratch root (under the driver's work dir)
 
 func run(c *vlib.Ctx) {
-	c.Rule("per case a fresh sandbox S/{outside/*,w/side/*,w/tgt-evil,w/tgt} (victim files/dirs/symlinks with fixed modes and mtimes; target absent / empty dir / pre-populated with files, dirs and symlinks leading outside / a file / a symlink to an outside dir or file / dangling) and an archive of 1-10 entries: root + names from a pool (3 names in the smallpool strata so that one name reappears with another type; '..', '.', empty, absolute, NUL, unicode, wrong root in the hostile stratum), types dir/file/symlink, symlink targets absolute/relative to outside victims, inside, dangling, modes 0..07777, mtimes unset/sec/ns, optional truncation. Stratum dir-replaced builds the multi-step shape 'directory X extracted and kept empty -> symlink X (to an outside directory, absolute or ../) replaces it -> file/dir/symlink entries addressed below X (new names and names of existing victim files)' at depth 1-3 with unrelated entries interleaved; smallpool reaches the same shape by chance and by steering. distinct = FNV of target variant + entry list; non-trivial = Extract changed the target subtree AND the case has a hostile feature (symlink resolving outside, '..'/absolute/foreign name, a name reused with another type, or an entry path through a pre-existing symlink)")
+	c.Rule("per case a fresh sandbox S/{outside/*,w/side/*,w/tgt-evil,w/tgt} (victim files/dirs/symlinks with fixed modes and mtimes; target absent / empty dir / pre-populated with files, dirs and symlinks leading outside / a file / a symlink to an outside dir or file / dangling) and an archive of 1-10 entries: root + names from a pool (3 names in the smallpool strata so that one name reappears with another type; '..', '.', empty, absolute, NUL, unicode, wrong root in the hostile stratum), types dir/file/symlink, symlink targets absolute/relative to outside victims, inside, dangling, modes 0..07777, mtimes unset/sec/ns/extreme (year 1, 1601, 1677/1678 and 2262 edges, 2300, 9999, negative; PAX records), optional truncation. Stratum dir-replaced builds the multi-step shape 'directory X extracted and kept empty -> symlink X (to an outside directory, absolute or ../) replaces it -> file/dir/symlink entries addressed below X (new names and names of existing victim files)' at depth 1-3 with unrelated entries interleaved; smallpool reaches the same shape by chance and by steering. distinct = FNV of target variant + entry list; non-trivial = Extract changed the target subtree AND the case has a hostile feature (symlink resolving outside, '..'/absolute/foreign name, a name reused with another type, or an entry path through a pre-existing symlink)")
 	base = c.TempDir("c38-")
 	defer os.RemoveAll(base)
 	q := c.N(1500, 40000)
@@ -38,7 +38,7 @@ func run(c *vlib.Ctx) {
 	c.Cases("dir-replaced", q*3/10, func(k *vlib.Case) { oneCase(k, genReplaced) })
 	// hand-made minimal archives: the four shapes of the (since fixed)
 	// deferred-chmod defect and three "entry below a replaced directory" shapes
-	c.Cases("witness", 7, func(k *vlib.Case) { oneCase(k, genWitness) })
+	c.Cases("witness", 9, func(k *vlib.Case) { oneCase(k, genWitness) })
 }
 
 // ---------------------------------------------------------------------------
@@ -331,7 +331,8 @@ func (s *sandbox) prepopulate(r *vlib.Rand, variant int, pool []string) (string,
 type obj struct {
 	typ   string
 	mode  fs.FileMode
-	mtime int64
+	mtime int64 // seconds
+	mns   int   // nanoseconds
 	ctime int64
 	size  int64
 	hash  string
@@ -343,7 +344,7 @@ func (o obj) String() string {
 	if o.err != "" {
 		return "ERR " + o.err
 	}
-	s := fmt.Sprintf("%s mode=%v mtime=%d", o.typ, o.mode, o.mtime)
+	s := fmt.Sprintf("%s mode=%v mtime=%d.%09d", o.typ, o.mode, o.mtime, o.mns)
 	switch o.typ {
 	case "file":
 		s += fmt.Sprintf(" size=%d sha=%s", o.size, o.hash)
@@ -373,7 +374,7 @@ func snapshot(root, skip, dirMetaSkip string) map[string]obj {
 			m[rel] = obj{err: err.Error()}
 			return
 		}
-		o := obj{mode: fi.Mode(), mtime: fi.ModTime().UnixNano()}
+		o := obj{mode: fi.Mode(), mtime: fi.ModTime().Unix(), mns: fi.ModTime().Nanosecond()}
 		if st, ok := fi.Sys().(*syscall.Stat_t); ok {
 			o.ctime = st.Ctim.Nano()
 		}
@@ -384,7 +385,7 @@ func snapshot(root, skip, dirMetaSkip string) map[string]obj {
 		case fi.IsDir():
 			o.typ = "dir"
 			if p == dirMetaSkip {
-				o.mtime, o.ctime = 0, 0
+				o.mtime, o.mns, o.ctime = 0, 0, 0
 			}
 			if fi.Mode().Perm()&0o700 != 0o700 {
 				os.Chmod(p, fi.Mode().Perm()|0o700)
@@ -444,7 +445,7 @@ func diff(a, b map[string]obj) []change {
 			out = append(out, change{p, "linktarget", oa, ob})
 		case oa.mode != ob.mode:
 			out = append(out, change{p, "mode", oa, ob})
-		case oa.mtime != ob.mtime:
+		case oa.mtime != ob.mtime || oa.mns != ob.mns:
 			out = append(out, change{p, "mtime", oa, ob})
 		default:
 			out = append(out, change{p, "ctime-only", oa, ob})
@@ -473,14 +474,32 @@ func genMode(r *vlib.Rand) int64 {
 	return vlib.Pick(r, modePool)
 }
 
+// extremeTimes do not fit an int64 nanosecond count (before 1678 / after
+// 2262) or sit at its edges; archive/tar carries them in PAX records.
+var extremeTimes = []time.Time{
+	time.Date(1601, 1, 1, 0, 0, 0, 0, time.UTC),
+	time.Date(1, 1, 2, 3, 4, 5, 6, time.UTC),
+	time.Date(1677, 9, 21, 0, 12, 43, 0, time.UTC),
+	time.Date(1677, 9, 21, 0, 12, 44, 0, time.UTC),
+	time.Date(1969, 12, 31, 23, 59, 59, 999999999, time.UTC),
+	time.Date(2262, 4, 11, 23, 47, 16, 0, time.UTC),
+	time.Date(2262, 4, 11, 23, 47, 17, 0, time.UTC),
+	time.Date(2300, 6, 1, 12, 0, 0, 500, time.UTC),
+	time.Date(9999, 12, 31, 23, 59, 59, 0, time.UTC),
+	time.Unix(1<<33, 0), // beyond the 11-digit octal USTAR field
+	time.Unix(-1, 0),
+}
+
 func genMtime(r *vlib.Rand) time.Time {
-	switch r.Intn(5) {
+	switch r.Intn(6) {
 	case 0:
 		return time.Time{}
 	case 1:
 		return time.Unix(int64(r.Intn(2000000000)), int64(r.Intn(1000000000)))
 	case 2:
 		return time.Unix(int64(r.Intn(2000000000)), 0)
+	case 3:
+		return vlib.Pick(r, extremeTimes)
 	default:
 		return vlib.Pick(r, []time.Time{time.Unix(1500000000, 0), time.Unix(1, 1), time.Unix(1700000000, 999999999)})
 	}
@@ -714,7 +733,15 @@ func genWitness(k *vlib.Case, s *sandbox) (string, []entry, int, map[string]byte
 	f := func(n string) entry {
 		return entry{name: n, typ: tar.TypeReg, mode: 0o644, mtime: tm, body: []byte("payload")}
 	}
-	switch k.Index % 7 {
+	switch k.Index % 9 {
+	case 7: // symlink with a far-future mtime pointing at an outside file (../)
+		e := l("r/d", "", "outside/victim.txt", false)
+		e.mtime = time.Date(2300, 1, 1, 0, 0, 0, 0, time.UTC)
+		es = []entry{d("r", 0o755), e}
+	case 8: // year-1601 mtime, absolute link to an outside directory, single-symlink archive
+		e := l("r", "", "outside/vdir", true)
+		e.mtime = time.Date(1601, 1, 1, 0, 0, 0, 0, time.UTC)
+		es = []entry{e}
 	case 4: // new file below a directory that a symlink (../) replaced
 		es = []entry{d("r", 0o755), d("r/d", 0o755), l("r/d", "", "outside/emptydir", false), f("r/d/new")}
 	case 5: // overwrite of an existing outside file, absolute link, depth 2
